@@ -88,7 +88,19 @@ def F(x) -> Fraction:
     return Fraction(x) if not isinstance(x, Fraction) else x
 
 
+def Fn(x):
+    """Fraction of a number of the data frame, the string "nan" for a NaN (a bar whose rows carry no data)"""
+    try:
+        if x != x:
+            return "nan"
+        return F(x)
+    except (ValueError, TypeError, ArithmeticError):
+        return "nan"
+
+
 def dump_levels(ls):
+    if not isinstance(ls, (list, tuple)):
+        return "nan"
     return [[F(l[0]), F(l[1]), isinstance(l[1], float)] for l in ls]
 
 
@@ -96,9 +108,10 @@ def dump_book(df: pd.DataFrame):
     out = []
     for name, row in df.iterrows():
         out.append({
-            "name": name, "open": bool(row["state"] == "open"), "kind": str(row["type"]), "strike": F(int(row["strike_price"])),
-            "expiry": minutes(row["expiry_time"]), "mark": F(float(row["mark_price"])), "underlying": F(float(row["underlying_price"])),
-            "delta": F(float(row["delta"])), "gamma": F(float(row["gamma"])),
+            "name": name, "open": bool(row["state"] == "open"), "kind": str(row["type"]),
+            "strike": Fn(row["strike_price"]) if row["strike_price"] != row["strike_price"] else F(int(row["strike_price"])),
+            "expiry": "nan" if pd.isna(row["expiry_time"]) else minutes(row["expiry_time"]), "mark": Fn(float(row["mark_price"])),
+            "underlying": Fn(float(row["underlying_price"])), "delta": Fn(float(row["delta"])), "gamma": Fn(float(row["gamma"])),
             "asks": dump_levels(row["asks"]), "bids": dump_levels(row["bids"]),
         })
     return out
@@ -107,7 +120,17 @@ def dump_book(df: pd.DataFrame):
 def dump_balance(b):
     if b is None:
         return None
-    return {"netValue": F(b.net_value), "cash": F(b.balance), "premium": F(b.premium), "delta": F(b.delta), "gamma": F(b.gamma)}
+    return {"netValue": Fn(b.net_value), "cash": Fn(b.balance), "premium": Fn(b.premium), "delta": Fn(b.delta), "gamma": Fn(b.gamma)}
+
+
+def has_nan(x) -> bool:
+    if isinstance(x, str):
+        return x == "nan"
+    if isinstance(x, dict):
+        return any(has_nan(v) for v in x.values())
+    if isinstance(x, (list, tuple)):
+        return any(has_nan(v) for v in x)
+    return False
 
 
 def dump_state(rig: Rig):
